@@ -117,6 +117,14 @@ def worker(args):
                 stats["na"] += 1; continue
             stats["objects"] += 1
             stats["classes"][r["meta"]["class"]] = stats["classes"].get(r["meta"]["class"], 0) + 1
+            if rng.random() < 0.3:
+                # the same object rebuilt from its JSON export (load_carver / load_discretizer): unseen data must be treated
+                # the same way (default group, rejections)
+                try:
+                    obj, _ = fitgen.reload_obj(obj)
+                    stats["reloaded"] = stats.get("reloaded", 0) + 1
+                except Exception:
+                    pass
             for mode in rng.sample(MODES, 4):
                 Xn = X.copy() if mode == "train" else probe_frame(rng, obj, X, mode)
                 fs, err = check_probe(drv, obj, Xn, mode)
